@@ -142,6 +142,76 @@ impl Signal {
     }
 }
 
+/// Façade over the raw executors for the verification harness (V1): scripted
+/// futures are spawned and run on the real thread pool without a simulation.
+#[cfg(nexosim_verif)]
+#[allow(missing_docs, missing_debug_implementations)]
+pub mod verif_pool {
+    use std::future::Future;
+    use std::time::Duration;
+
+    use super::{Executor, ExecutorError, Signal, SimulationContext};
+    use crate::channel::THREAD_MSG_COUNT;
+
+    pub enum VRunResult {
+        Ok,
+        Unprocessed(usize),
+        Timeout,
+        Panic(String),
+    }
+
+    pub struct VPool(Executor);
+
+    impl VPool {
+        /// Creates an executor with `num_threads` workers, or the
+        /// single-threaded executor if `num_threads` is zero.
+        pub fn new(num_threads: usize) -> Self {
+            let simulation_context = SimulationContext {
+                #[cfg(feature = "tracing")]
+                time_reader: crate::util::sync_cell::SyncCell::new(
+                    crate::time::TearableAtomicTime::new(crate::time::MonotonicTime::EPOCH),
+                )
+                .reader(),
+            };
+            let abort_signal = Signal::new();
+
+            Self(if num_threads == 0 {
+                Executor::new_single_threaded(simulation_context, abort_signal)
+            } else {
+                Executor::new_multi_threaded(num_threads, simulation_context, abort_signal)
+            })
+        }
+
+        pub fn spawn<F>(&self, future: F)
+        where
+            F: Future<Output = ()> + Send + 'static,
+        {
+            self.0.spawn_and_forget(future);
+        }
+
+        pub fn run(&mut self, timeout: Duration) -> VRunResult {
+            match self.0.run(timeout) {
+                Ok(()) => VRunResult::Ok,
+                Err(ExecutorError::UnprocessedMessages(n)) => VRunResult::Unprocessed(n),
+                Err(ExecutorError::Timeout) => VRunResult::Timeout,
+                Err(ExecutorError::Panic(_, payload)) => VRunResult::Panic(
+                    payload
+                        .downcast_ref::<&str>()
+                        .map(|s| s.to_string())
+                        .or_else(|| payload.downcast_ref::<String>().cloned())
+                        .unwrap_or_default(),
+                ),
+            }
+        }
+    }
+
+    /// Adds `delta` to the calling thread's count of in-flight messages, as a
+    /// completed send (+1) or a receive (-1) does.
+    pub fn msg_delta(delta: isize) {
+        THREAD_MSG_COUNT.set(THREAD_MSG_COUNT.get().wrapping_add(delta));
+    }
+}
+
 #[cfg(all(test, not(nexosim_loom)))]
 mod tests {
     use std::sync::atomic::Ordering;
